@@ -437,6 +437,26 @@ class SNum:
                     return SNum.const(b.real ** val.const_value().real)
                 raise TypeError('symx: real base ** symbolic exponent leaves the ring (Escape)')
             raise TypeError('symx: non-unit base ** symbolic exponent')
+        # option fork_unit_pow: a root of unity raised to an integer-valued expression over integer variables is
+        # concretised by forking over (exponent mod period): the value becomes a constant on every path (feasibility of
+        # each residue is a cheap integer query) instead of an if-chain inside a product (expensive non-linear VC)
+        if _ctx._CUR[0] is not None and _ctx._CUR[0].opts.get('fork_unit_pow') and _ctx._CUR[0].mode == 'sym':
+            per = next((q for q in range(1, 9) if abs(b**q - 1) < 1e-12), None)
+            vs = sorted(self.variables())
+            if per and vs and all(_ctx.var_kind(v) == 'int' for v in vs) and not any(a for (_m, a) in self.t):
+                import z3
+
+                from .sint import SInt
+
+                e, ok = z3.IntVal(0), True
+                for (mono, _a), c in self.t.items():
+                    if abs(c.imag) > 1e-12 or abs(c.real - round(c.real)) > 1e-12 or any(pw != 1 for _n, pw in mono) or len(mono) > 1:
+                        ok = False
+                        break
+                    e = e + (z3.IntVal(int(round(c.real))) * z3.Int(mono[0][0]) if mono else z3.IntVal(int(round(c.real))))
+                if ok:
+                    k = _ctx.cur().concretize_int(SInt(e % per))
+                    return SNum.const(b**k)
         phi = cmath.phase(b)  # base = exp(i*phi)
         return (self * (1j * phi)).exp()
 
